@@ -236,7 +236,12 @@ def gate_ident(ctx: Ctx, rep: Report) -> None:
     R = 'IDENT'
     c = ctx.index.cls('bqskit/ir/gates/circuitgate.py:CircuitGate')
     n = 0
-    for f in c.methods.values():
+    # methods of CircuitGate and helper functions of its module
+    fns = list(c.methods.values()) + [
+        x for x in ctx.index.all_functions()
+        if x.path == c.path and x.cls is None
+    ]
+    for f in fns:
         js = [j for j in ast.walk(f.node) if isinstance(j, ast.JoinedStr)
               and any(isinstance(v, ast.Constant) and 'circuitgate_' in str(
                   v.value) for v in j.values)]
@@ -323,8 +328,9 @@ def eqqasm(ctx: Ctx, rep: Report) -> None:
         # methods Operation.get_qasm calls on the gate write on its behalf
         for k in ast.walk(opq.node):
             if isinstance(k, ast.Call) and isinstance(
-                    k.func, ast.Attribute) and norm(
-                        k.func.value) == 'self.gate':
+                    k.func, ast.Attribute):
+                # (whatever the receiver is spelled like: `self.gate.m()`
+                # or a local alias `gate.m()`)
                 m = ctx.index.lookup_method(c, k.func.attr)
                 if m is not None and m.cls is c:
                     written |= attrs(m)
